@@ -286,6 +286,22 @@ ADD4 = {
 for _id, _t in ADD4.items():
     P[_id]["text"] += " " + _t
 
+ADD5 = {
+ "C02": "The port list of a port-scan report, the one place where the unrecovered knock detector indexes by a frame-driven count, is sized by the set it is filled from (shared with C20; rule knock-list-index-safe).",
+ "C03": "Outside its constructor the per-source limiter assigns no plain field without holding a mutex of the limiter (rule limiter-state-synchronised).",
+ "C04": "A datagram and the peeked bytes are served to the end: what did not fit one Read is kept for the next (shared with C08; rule read-drops-only-copied).",
+ "C08": "Every configuration entry is decoded into a struct allocated inside the entry loop (a port configured without services does not inherit the previous entry's; rule entry-struct-fresh).",
+ "C09": "A helper goroutine that watches an exit channel in a select blocks nowhere else inside that loop (no plain send or receive beside the select; rule helper-waits-on-exit).",
+ "C11": "Every filesystem object is built with a root (no zero-value Htfs; rule fs-object-rooted).",
+ "C12": "The ssh simulator's ServerConfig.MaxAuthTries is set on every path to NewServerConn from the configured value or a negative constant (the library reads 0 as six attempts; rule ssh-attempts-not-capped).",
+ "C14": "The payload the segment handler sees is cut at the IPv4 total length (shared with C20; rule payload-cut-at-ip-length).",
+ "C16": "A channel of the agent connection is closed under a closed-already flag that is read, set and followed by the close inside one critical section (rule close-once).",
+ "C18": "After a failed Set a getter returns an error or no identity, never the freshly generated one (rule identity-not-used-unless-stored).",
+ "C20": "Every frame or header object the receive loop hands to a handle* method is produced inside that iteration (rule frame-objects-per-frame).",
+}
+for _id, _t in ADD5.items():
+    P[_id]["text"] += " " + _t
+
 PENDING = {
 }
 
